@@ -52,14 +52,18 @@ def drive(ctx, inputs, args=(), label="expr"):
     obs, skipped = {}, set()
     todo = list(range(len(inputs)))
     outp = None
+    workers = str(min(8, os.cpu_count() or 1))       # vectors are independent; a crash is re-run sequentially to name the vector
     while True:
         d = ctx.subdir("drive-" + label)
         inp, outp, prog = os.path.join(d, "in.ndjson"), os.path.join(d, "out.ndjson"), os.path.join(d, "progress")
         with open(inp, "w") as f:
             for i in todo:
                 f.write(json.dumps(inputs[i], separators=(",", ":")) + "\n")
-        cmd = [binp, "-in", inp, "-out", outp, "-seed", str(ctx.seed), "-progress", prog] + list(args)
+        cmd = [binp, "-in", inp, "-out", outp, "-seed", str(ctx.seed), "-progress", prog, "-workers", workers] + list(args)
         p = subprocess.run(cmd, cwd=d, env=ctx.goenv(), stdout=subprocess.PIPE, stderr=subprocess.PIPE, text=True, errors="replace")
+        if p.returncode not in (0, 3) and workers != "1":
+            workers = "1"
+            continue
         if p.returncode == 0:
             for l in open(outp):
                 if l.strip():
